@@ -4,4 +4,5 @@
 using namespace simd;
 using intervals_t = ikos::interval_domain<z_number, varname_t>;
 using D = term_domain<term::TDomInfo<z_number, varname_t, intervals_t>>;
-SIM_REGISTER_DOMAIN(term_intervals, D, "term_intervals", CAP_CORE)
+SIM_REGISTER_DOMAIN(term_intervals, D, "term_intervals",
+                    CAP_CORE | CAP_BACKWARD)
